@@ -365,7 +365,10 @@ class Monitor:
         bad = set()
         for i, (t, v) in enumerate(after):
             if isinstance(t, parser.comment) and not isinstance(t, (delimited_comment.beginning, delimited_comment.ending)):
-                if i + 1 >= len(after) or not is_cr(after[i + 1][0]):
+                j = i + 1
+                while j < len(after) and is_blank(after[j][0]) and guess(after[j][1]) == "":
+                    j += 1  # a blank_line token carries no text
+                if j >= len(after) or not is_cr(after[j][0]):
                     bad.add(id(t))
         return bad
 
@@ -427,7 +430,7 @@ def norm_comment(v):
 def build(eng, fixture, window, confname="default"):
     lines = read_fixture(fixture)
     slines = sym_lines(eng, lines, window) if eng.symbolic or window is not None else lines
-    conf = get_conf(confname)
+    conf = get_conf2(confname)
     oFile = vhdlFile_pkg.vhdlFile(slines)
     oFile.set_indent_map(conf.dIndent)
     rl = rule_list.rule_list(oFile, conf.severity_list)
@@ -564,7 +567,7 @@ def pipeline(eng, p):
         v2 = violations_of(rl)
         clauses.append(("C06:repeatable", list_eq(v1, v2)))
         # every reporting rule alone on a fresh parse reports the same (no dependence on the rules analysed before it)
-        reporting = sorted(set(v[0] for v in v1))[: p.get("max_solo", 12)]
+        reporting = sorted(set(v[0] for v in v1))[: p.get("max_solo", 6)]
         for uid in reporting:
             o2 = vhdlFile_pkg.vhdlFile(slines)
             o2.set_indent_map(conf.dIndent)
@@ -635,10 +638,11 @@ PINNED = {
     "C01": ["fixtures/protected_type_body__rule_401_test_input.vhd", "fixtures/bit_string_literal__rule_500_test_input.vhd", "fixtures/signal__rule_015_test_input.vhd"],
     "C02": ["fixtures/variable_assignment__rule_006_test_input.vhd", "fixtures/whitespace__rule_002_test_input.vhd"],
     "C03": ["fixtures/bit_string_literal__rule_500_test_input.vhd", "fixtures/constant__rule_400_test_input.vhd"],
+    "C06": [("fixtures/case__rule_007_test_input.vhd", "flipB"), ("fixtures/process__rule_015_test_input.vhd", "flipB"), ("fixtures/entity__rule_003_test_input.vhd", "flipB")],
     "C07": ["fixtures/port__rule_010_test_input.vhd"],
     "C10": ["fixtures/variable__rule_011_test_input.vhd"],
-    "C18": ["fixtures/constant__rule_012_test_input.vhd"],
-    "C19": ["fixtures/constant__rule_017_test_input.vhd"],
+    "C18": ["fixtures/constant__rule_012_test_input.vhd", "fixtures/when__rule_001_test_input.vhd"],
+    "C19": ["fixtures/constant__rule_017_test_input.vhd", "fixtures/when__rule_001_test_input.vhd", ("fixtures/constant__rule_016_test_input.vhd", "flipA")],
 }
 ALL_FIXTURES = sorted("fixtures/" + f for f in os.listdir(os.path.join(CORPUS, "fixtures")) if f.endswith(".vhd"))
 SKELETONS = sorted("skeletons/" + f for f in os.listdir(os.path.join(CORPUS, "skeletons")) if f.endswith(".vhd")) if os.path.isdir(os.path.join(CORPUS, "skeletons")) else []
@@ -659,17 +663,19 @@ def pick_params(prop, tier, seed):
     if prop in ("C06", "C08", "C09"):
         nfiles = 6 if tier == "quick" else 50
     files = list(PINNED.get(prop, [])) + SKELETONS
-    pool = [f for f in ALL_FIXTURES if f not in files]
+    names = [f[0] if isinstance(f, tuple) else f for f in files]
+    pool = [f for f in ALL_FIXTURES if f not in names]
     files += rnd.sample(pool, min(nfiles, len(pool)))
-    confs = ["default"]
     out = []
     for k, f in enumerate(files):
-        cl = code_lines(f)
         conf = "default"
         if tier == "thorough":
             conf = ["default", "default", "jcl", "flipA", "flipB"][k % 5]
         elif k % 4 == 3:
             conf = ["jcl", "flipA", "flipB"][(k // 4) % 3]
+        if isinstance(f, tuple):
+            f, conf = f
+        cl = code_lines(f)
         if not cl:
             out.append({"prop": prop, "fixture": f, "window": None, "conf": conf})
             continue
@@ -743,3 +749,130 @@ L09 = make_L("C09", "fixing the fixed text again changes nothing")
 L10 = make_L("C10", "applying a rule's fix a second time right after the first changes nothing")
 L18 = make_L("C18", "token index equals a recomputed index whenever a rule obtains its tokens of interest; every region of interest is the slice it claims to be")
 L19 = make_L("C19", "no exception escapes parse, fix or check")
+
+
+# ---------------------------------------------------------------- C15: process-level state (what a pool worker carries from one file to the next)
+import copy
+import types
+
+
+def global_state():
+    """every module-level and class-level mutable container (dict / list / set) of the loaded vsg.* modules, deep-copied"""
+    out = {}
+    for mname, mod in list(sys.modules.items()):
+        if mod is None or not (mname == "vsg" or mname.startswith("vsg.")):
+            continue
+        for k, v in list(vars(mod).items()):
+            if k.startswith("_sx_") or k.startswith("__"):
+                continue
+            if isinstance(v, (dict, list, set)):
+                out["%s.%s" % (mname, k)] = _freeze(v)
+            elif isinstance(v, type) and getattr(v, "__module__", None) == mname:
+                for ak, av in list(vars(v).items()):
+                    if ak.startswith("__"):
+                        continue
+                    if isinstance(av, (dict, list, set)):
+                        out["%s.%s.%s" % (mname, k, ak)] = _freeze(av)
+    return out
+
+
+def _freeze(v, depth=0):
+    if depth > 6:
+        return "<deep>"
+    if isinstance(v, dict):
+        return ("dict", tuple((repr(k), _freeze(x, depth + 1)) for k, x in v.items()))
+    if isinstance(v, (list, tuple)):
+        return (type(v).__name__, tuple(_freeze(x, depth + 1) for x in v))
+    if isinstance(v, (set, frozenset)):
+        return ("set", tuple(sorted(repr(x) for x in v)))
+    if isinstance(v, (str, int, float, bool, type(None), SymStr, core.SymInt, core.SymBool)):
+        return v
+    if isinstance(v, (type, types.FunctionType, types.ModuleType, types.BuiltinFunctionType)):
+        return "<%s %s>" % (type(v).__name__, getattr(v, "__name__", "?"))
+    return "<%s>" % type(v).__name__
+
+
+def state_diff(a, b):
+    keys = sorted(set(a) | set(b))
+    changed = []
+    cl = []
+    for k in keys:
+        if k not in a or k not in b:
+            changed.append(k)
+            continue
+        r = Eq(a[k], b[k]) if _has_sym(a[k]) or _has_sym(b[k]) else (a[k] == b[k])
+        if r is True:
+            continue
+        if r is False:
+            changed.append(k)
+        else:
+            cl.append((k, r))
+    return changed, cl
+
+
+def _has_sym(v):
+    if isinstance(v, (SymStr, core.SymInt, core.SymBool)):
+        return True
+    if isinstance(v, tuple):
+        return any(_has_sym(x) for x in v)
+    return False
+
+
+def purity(eng, p):
+    """one inductive step: processing a file leaves the process-level state of vsg.* as it found it"""
+    fixture, window, confname = p["fixture"], p.get("window"), p.get("conf", "default")
+    lines = read_fixture(fixture)
+    slines = sym_lines(eng, lines, tuple(window) if window else None)
+    conf = get_conf2(confname)
+    base_roles(fixture)  # warm the harness's own cache outside the measured region
+    s0 = global_state()
+    oFile = vhdlFile_pkg.vhdlFile(slines, sFilename=fixture)
+    oFile.set_indent_map(conf.dIndent)
+    rl = rule_list.rule_list(oFile, conf.severity_list)
+    rl.configure(conf)
+    rl.fix()
+    rl.clear_violations()
+    rl.check_rules(bAllPhases=True)
+    rl.report_violations("vsg")
+    s1 = global_state()
+    changed, cl = state_diff(s0, s1)
+    clauses = [("C15:process_state_unchanged[%s]" % k, False) for k in changed[:5]]
+    clauses += [("C15:process_state_unchanged[%s]" % k, c) for k, c in cl]
+    clauses.append(("C15:process_state_compared", len(s0) > 50))
+    return clauses
+
+
+def make_L15():
+    class L15(Harness):
+        name = "L15"
+        prop = "C15"
+        parallel_params = True
+        per_clause_findings = True
+        title = "purity step: parsing, fixing, checking and reporting one file leaves every module-level and class-level mutable container of vsg.* unchanged (so a worker's next file cannot depend on the previous one)"
+        functions = ("vsg",)
+        stubs = ()
+        assumptions = L01.assumptions
+        bounds = L01.bounds
+        outside = "state kept outside vsg.* (interpreter, libraries); instance state reachable only from live objects"
+        min_conclusive_share = 0.5
+        exception_props = ("C15", "C19")
+
+        def params(self, tier):
+            seed = int(os.environ.get("VERIF_SEED", "0") or 0)
+            ps = pick_params("C15", tier, seed)
+            for q in ps:
+                q["_limits"] = {"shard_paths": 32}
+            return ps
+
+        def run(self, eng, p):
+            return purity(eng, p)
+
+        def describe(self, values, p):
+            return l_describe(values, p)
+
+        signature = staticmethod(l_signature)
+
+    return register(L15)
+
+
+L15 = make_L15()
